@@ -90,6 +90,20 @@ fn compile21(params: &Pat, helpers: &[String], body_text: &str) -> Result<V, Str
     sut::compile_modern(&s, Dialect::Cl21.sigil(), ModernOpts::cli_default(21), "*verif*.clsp", &[]).map(|c| c.code).map_err(|e| e.1)
 }
 
+/// the free variables x y z (whole tokens) replaced by the quoted atoms that spell them
+pub fn quote_free(e: &str) -> String {
+    crate::gen_text::tokenize(e)
+        .iter()
+        .map(|t| match t.as_str() {
+            "x" => "(q . x)".to_string(),
+            "y" => "(q . y)".to_string(),
+            "z" => "(q . z)".to_string(),
+            o => o.to_string(),
+        })
+        .collect::<Vec<_>>()
+        .join(" ")
+}
+
 /// rename the free variables x y z (whole tokens) to longer names
 pub fn rename_free(e: &str) -> String {
     let mut out = String::new();
@@ -463,6 +477,20 @@ impl Prop for C16Prop {
                 }
                 match (repl_eval(&mut r1, e), repl_eval(&mut r2, &renamed)) {
                     (Res::Constant(a), Res::Constant(b)) if a != b => Some(id),
+                    (Res::Constant(a), _) => {
+                        // or the constant is what the expression gives when each free variable IS
+                        // the atom that spells its name (renaming cannot show that when only the
+                        // shape of the value matters, as in (l z))
+                        let quoted = quote_free(e);
+                        let mut r3 = new_repl();
+                        for d in defs.lines() {
+                            repl_eval(&mut r3, d);
+                        }
+                        match repl_eval(&mut r3, &quoted) {
+                            Res::Constant(c) if c == a && quoted != e => Some(id),
+                            _ => None,
+                        }
+                    }
                     _ => None,
                 }
             }
